@@ -845,7 +845,42 @@ impl PlCdrDeserialize for DiscoveredWriterData {
     #[cfg(not(feature = "security"))]
     let security_info: Option<EndpointSecurityInfo> = None;
 
+    // The DDS-RPC fields are written by to_parameter_list, so read them back.
+    let service_instance_name: Option<String> = // Note the serialized type is StringWithNul
+      get_option_from_pl_map::< _ , StringWithNul>(&pl_map, ctx, ParameterId::PID_SERVICE_INSTANCE_NAME, "service instance name")?
+      .map( String::from );
+    let related_datareader_key: Option<GUID> = get_option_from_pl_map(
+      &pl_map,
+      ctx,
+      ParameterId::PID_RELATED_ENTITY_GUID,
+      "related entity GUID",
+    )?;
+    // One parameter per alias. No parameters at all means the field is absent.
+    let topic_aliases: Vec<StringWithNul> = get_all_from_pl_map(
+      &pl_map,
+      &ctx,
+      ParameterId::PID_TOPIC_ALIASES,
+      "topic aliases",
+    )?;
+    let topic_aliases: Option<Vec<String>> = if topic_aliases.is_empty() {
+      None
+    } else {
+      Some(topic_aliases.into_iter().map(String::from).collect())
+    };
+
     let qos = QosPolicies::from_parameter_list(ctx, &pl_map)?;
+
+    let mut publication_topic_data = PublicationBuiltinTopicData::new_with_qos(
+      guid,
+      participant_guid,
+      topic_name,
+      type_name,
+      &qos,
+      security_info,
+    );
+    publication_topic_data.service_instance_name = service_instance_name;
+    publication_topic_data.related_datareader_key = related_datareader_key;
+    publication_topic_data.topic_aliases = topic_aliases;
 
     Ok(DiscoveredWriterData {
       last_updated: Instant::now(),
@@ -855,14 +890,7 @@ impl PlCdrDeserialize for DiscoveredWriterData {
         multicast_locator_list,
         data_max_size_serialized,
       },
-      publication_topic_data: PublicationBuiltinTopicData::new_with_qos(
-        guid,
-        participant_guid,
-        topic_name,
-        type_name,
-        &qos,
-        security_info,
-      ),
+      publication_topic_data,
     })
   }
 }
